@@ -236,6 +236,8 @@ def replay_tree(initial, events, as_str):
     for e in events:
         t = e.event_type
         src = os.fsencode(e.src_path) if as_str else e.src_path
+        if src == "":
+            src = b""     # the full emitter's half-empty moved events carry a str "" even on a bytes watch
         if t == "created":
             tree.add(src)
         elif t == "deleted":
@@ -244,6 +246,8 @@ def replay_tree(initial, events, as_str):
                     tree.discard(x)
         elif t == "moved":
             dst = os.fsencode(e.dest_path) if as_str else e.dest_path
+            if dst == "":
+                dst = b""
             if dst == b"":
                 # half-empty moved event of the full emitter: the entry left the watched scope
                 for x in list(tree):
@@ -261,8 +265,9 @@ def replay_tree(initial, events, as_str):
     return tree
 
 
-def h_history(props, nops, recursive, settled, one_per_read, spelling, full):
-    """spelling: 'bytes' | 'str' | 'slash' (str with a trailing slash)"""
+def h_history(props, nops, recursive, settled, one_per_read, spelling, full, first=None):
+    """spelling: 'bytes' | 'str' | 'slash' (str with a trailing slash)
+    first: optional fixed first operation (op, src, dst) - a directed history: only the later operations are symbolic"""
     fs = FM.FS(ROOT, TREE)
     FM.use_fs(fs)
     fs.one_per_read = one_per_read
@@ -279,9 +284,12 @@ def h_history(props, nops, recursive, settled, one_per_read, spelling, full):
             initial.append(p)
     ops = []
     for i in range(nops):
-        op = api.choice("op" + str(i), OPS)
-        p = api.choice("src" + str(i), SRC)
-        d = api.choice("dst" + str(i), DST)
+        if i == 0 and first is not None:
+            op, p, d = first
+        else:
+            op = api.choice("op" + str(i), OPS)
+            p = api.choice("src" + str(i), SRC)
+            d = api.choice("dst" + str(i), DST)
         api.assume(valid(fs, op, p, d))
         if (not settled) and i > 0:
             api.assume(paced(ops[i - 1], op, p, d, prev_kind))
